@@ -454,7 +454,7 @@ package deviceshare
 
 // deletePod: an assigned pod with a decodable non-empty allocation whose node is cached releases exactly that allocation
 // from that node's ledger (add=false, the pod itself), once; otherwise nothing is touched.
-//@ func (*nodeDeviceCache).deletePod [C19]
+//@ func (*nodeDeviceCache).deletePod [C19,C07]
 //@   requires n != nil && n.nodeDeviceInfos != nil && devOK(n, pod.Spec.NodeName) && pod != nil && persistedOK() && nnDef(pod.ObjectMeta.Namespace, pod.ObjectMeta.Name)
 //@   assert before call GetDeviceAllocations: #persisted: $arg0 == pod.ObjectMeta.Annotations
 //@   assert before call updateCacheUsed: #own: $recv == n.nodeDeviceInfos[pod.Spec.NodeName] && $recv != nil && $arg0 == lastresult("GetDeviceAllocations", 0) && $arg1 == pod && !$arg2 && pod.Spec.NodeName != ""
@@ -476,7 +476,7 @@ package deviceshare
 //   #duplicate a duplicate add event (pod already in the allocate set of a device type of an existing node device) leaves the
 //            used and free amounts of that type untouched - no double counting;
 //   #unassigned / #terminated: deletePod (of the old object resp. of the pod itself) instead, never both.
-//@ func (*nodeDeviceCache).updatePod [C19]
+//@ func (*nodeDeviceCache).updatePod [C19,C07]
 //@   requires n != nil && n.nodeDeviceInfos != nil && pod != nil && persistedOK()
 //@   requires devOK(n, pod.Spec.NodeName) && nnDef(pod.ObjectMeta.Namespace, pod.ObjectMeta.Name)
 //@   requires oldPod != nil ==> devOK(n, oldPod.Spec.NodeName) && nnDef(oldPod.ObjectMeta.Namespace, oldPod.ObjectMeta.Name)
@@ -499,14 +499,14 @@ package deviceshare
 // object itself or the pod inside a DeletedFinalStateUnknown tombstone); anything else is dropped. Informers never
 // deliver typed-nil pods. The well-formedness preconditions are those of updatePod / deletePod for the forwarded objects.
 //@ spec func podArgOK(n *nodeDeviceCache, p *corev1.Pod) bool = p != nil && devOK(n, p.Spec.NodeName) && nnDef(p.ObjectMeta.Namespace, p.ObjectMeta.Name)
-//@ func (*nodeDeviceCache).onPodAdd [C19]
+//@ func (*nodeDeviceCache).onPodAdd [C19,C07]
 //@   requires n != nil && n.nodeDeviceInfos != nil && persistedOK()
 //@   requires typeis(obj, *corev1.Pod) ==> podArgOK(n, payload(obj, *corev1.Pod))
 //@   assert before call updatePod: #fwd: $arg0 == nil && typeis(obj, *corev1.Pod) && $arg1 == payload(obj, *corev1.Pod)
 //@   ensures #iff: calls("updatePod") == (typeis(obj, *corev1.Pod) ? 1 : 0) && calls("deletePod") == 0
 //@   modifies inferred
 
-//@ func (*nodeDeviceCache).onPodUpdate [C19]
+//@ func (*nodeDeviceCache).onPodUpdate [C19,C07]
 //@   requires n != nil && n.nodeDeviceInfos != nil && persistedOK()
 //@   requires typeis(newObj, *corev1.Pod) ==> podArgOK(n, payload(newObj, *corev1.Pod))
 //@   requires typeis(oldObj, *corev1.Pod) && payload(oldObj, *corev1.Pod) != nil ==> podArgOK(n, payload(oldObj, *corev1.Pod))
@@ -516,7 +516,7 @@ package deviceshare
 
 //@ spec func isTombPod(obj any) bool = typeis(obj, cache.DeletedFinalStateUnknown) && typeis(payload(obj, cache.DeletedFinalStateUnknown).Obj, *corev1.Pod)
 //@ spec func deletedPod(obj any) *corev1.Pod = typeis(obj, *corev1.Pod) ? payload(obj, *corev1.Pod) : (isTombPod(obj) ? payload(payload(obj, cache.DeletedFinalStateUnknown).Obj, *corev1.Pod) : nil)
-//@ func (*nodeDeviceCache).onPodDelete [C19]
+//@ func (*nodeDeviceCache).onPodDelete [C19,C07]
 //@   requires n != nil && n.nodeDeviceInfos != nil && persistedOK()
 //@   requires typeis(obj, *corev1.Pod) || isTombPod(obj) ==> podArgOK(n, deletedPod(obj))
 //@   assert before call deletePod: #fwd: $arg0 == deletedPod(obj) && (typeis(obj, *corev1.Pod) || isTombPod(obj))
